@@ -55,7 +55,9 @@ theorem ReadOnly.isTypeInScope (n : String) : ReadOnly (isTypeInScope n) := by i
 theorem ReadOnly.lexFileLoc : ReadOnly lexFileLoc := by intro s a s' e; cases e; rfl
 theorem ReadOnly.tokCoord (t : PTok) : ReadOnly (tokCoord t) := by intro s a s' e; cases e; rfl
 theorem ReadOnly.attrOrCrash {α} (o : Option α) (site : String) : ReadOnly (attrOrCrash o site) := by
-  intro s a s' e; cases o <;> simp [attrOrCrash, PycModel.crash, P.fail, Pure.pure] at e
-  exact e.2.symm
+  intro s a s' e
+  cases o with
+  | none => cases e
+  | some x => cases e; rfl
 
 end PycModel
